@@ -18,11 +18,11 @@ func HarnessC15Concurrent() {
 	d2 := vInt64("d2")
 	op1, n1 := vChoice("op1", 4), 0
 	if op1 < 2 {
-		n1 = vChoice("name1", c16Names)
+		n1 = vChoice("name1", c15Names)
 	}
 	op2, n2 := vChoice("op2", 4), 0
 	if op2 < 2 {
-		n2 = vChoice("name2", c16Names)
+		n2 = vChoice("name2", c15Names)
 	}
 	alone2 := c16Op(fresh, op2, n2, d2, s)
 	vFreeze()
@@ -59,3 +59,6 @@ func HarnessC15Concurrent() {
 	}
 	vAssert(vSharedAtomicConflicts() == 0, "no-entry-point-reads-state-that-another-writes-atomically")
 }
+
+// c15Names: the pages of the shared tree that the concurrency check uses (the two @dump pages serve C16 only).
+const c15Names = 10
